@@ -590,7 +590,7 @@ Proof.
 Qed.
 
 Theorem enum_def_naming a ident fs :
-  enum_def_name a ident = or_default (ed_prefix a) [] ++ ident ++ or_default (ed_suffix a) DEFAULT_SUFFIX
+  enum_def_name a ident = or_default (ed_prefix a) [] ++ unraw ident ++ or_default (ed_suffix a) DEFAULT_SUFFIX
   /\ enum_def_variants fs = TABLE :: map pascal_case fs
   /\ (forall menv inner, unquoted menv (DEnumDef a ident fs) (VVariant 0 inner)
         = Some (match ed_table_name a with Some t => t | None => snake_case ident end))
@@ -616,4 +616,205 @@ Proof.
   induction H as [|w ws Hw _ IH]; [constructor|].
   cbn [map concat]. apply Forall_app. split; [|exact IH].
   rewrite <- (capitalize_alnum w Hw). apply Forall_forall. intros c Hc. now apply filter_In in Hc.
+Qed.
+
+(* ---------------------------------------------------------------------------------------------- *)
+(* word boundaries as a property of the position alone.
+   heck decides boundaries with a running mode that is reset at every boundary and with one char of
+   lookahead; the words it finds are nevertheless determined position by position from the text of
+   the run (maximal sequence of ASCII letters and digits): a word starts at c, with `pre` before it
+   and `post` after it in the run, iff c is an uppercase letter and either the last letter before c
+   is lowercase, or it is uppercase and the char after c is a lowercase letter. *)
+
+Definition upd_mode (m : word_mode) (c : N) : word_mode :=
+  if is_lowercase c then Lowercase else if is_uppercase c then Uppercase else m.
+
+(* the case of the last letter of pre (Boundary: no letter) *)
+Definition last_cased (pre : str) : word_mode := fold_left upd_mode pre Boundary.
+
+Definition word_starts_at (pre : str) (c : N) (post : str) : bool :=
+  negb (is_nil pre) && is_uppercase c &&
+  (is_mode_lower (last_cased pre)
+   || (is_mode_upper (last_cased pre) && match post with n :: _ => is_lowercase n | [] => false end)).
+
+(* cut the run  pre ++ c :: rest  (cur = the word being collected, it ends just before c) *)
+Fixpoint cut_words (pre : str) (c : N) (rest : str) (cur : str) : list str :=
+  let cut := word_starts_at pre c rest in
+  let cur' := if cut then [c] else cur ++ [c] in
+  (if cut then [cur] else []) ++
+  match rest with
+  | [] => [cur']
+  | n :: rest' => cut_words (pre ++ [c]) n rest' cur'
+  end.
+
+Definition run_words (w : str) : list str :=
+  match w with [] => [] | c :: rest => cut_words [] c rest [] end.
+
+Lemma last_cased_snoc pre c : last_cased (pre ++ [c]) = upd_mode (last_cased pre) c.
+Proof. unfold last_cased. now rewrite fold_left_app. Qed.
+
+Lemma lower_not_upper_excl c : is_lowercase c = true -> is_uppercase c = false.
+Proof. charcase. Qed.
+
+(* relation between heck's running state at c and the position-wise reading *)
+Definition st_normal (pre : str) (c : N) (seg : str) (mode : word_mode) : Prop :=
+  (pre = [] -> seg = [] /\ mode = Boundary) /\ (pre <> [] -> seg <> []) /\
+  (mode = last_cased pre \/ (mode = Boundary /\ last_cased pre = Uppercase /\ is_lowercase c = true)) /\
+  is_mode_lower (last_cased pre) && is_uppercase c = false.
+
+Definition st_pending (pre : str) (c : N) (cur : str) : Prop :=
+  pre <> [] /\ last_cased pre = Lowercase /\ is_uppercase c = true /\ cur <> [].
+
+Lemma snoc_nonempty {A} (l : list A) x : l ++ [x] <> [].
+Proof. now destruct l. Qed.
+
+Lemma st_normal_intro pre c seg mode :
+  pre <> [] -> seg <> [] ->
+  (mode = last_cased pre \/ (mode = Boundary /\ last_cased pre = Uppercase /\ is_lowercase c = true)) ->
+  is_mode_lower (last_cased pre) && is_uppercase c = false ->
+  st_normal pre c seg mode.
+Proof.
+  intros H1 H2 H3 H4. unfold st_normal.
+  split; [intros; congruence|]. split; [intros _; exact H2|]. split; assumption.
+Qed.
+
+Lemma word_segs_step c next r seg mode :
+  (c =? UNDERSCORE) = false ->
+  word_segs (c :: next :: r) seg mode =
+    if (next =? UNDERSCORE)
+       || (is_mode_lower (if is_lowercase c then Lowercase else if is_uppercase c then Uppercase else mode)
+           && is_uppercase next)
+    then (seg ++ [c]) :: word_segs (next :: r) [] Boundary
+    else if is_mode_upper mode && is_uppercase c && is_lowercase next
+         then seg :: word_segs (next :: r) [c] Boundary
+         else word_segs (next :: r) (seg ++ [c])
+                        (if is_lowercase c then Lowercase else if is_uppercase c then Uppercase else mode).
+Proof. intros H. cbn [word_segs]. rewrite H. reflexivity. Qed.
+
+Lemma cut_words_step pre c n r cur :
+  cut_words pre c (n :: r) cur =
+    (if word_starts_at pre c (n :: r) then [cur] else []) ++
+    cut_words (pre ++ [c]) n r (if word_starts_at pre c (n :: r) then [c] else cur ++ [c]).
+Proof. reflexivity. Qed.
+
+Lemma word_segs_cut_words_gen rest : forall c pre seg mode,
+  alnum_word (c :: rest) ->
+  (st_normal pre c seg mode -> word_segs (c :: rest) seg mode = cut_words pre c rest seg)
+  /\ (st_pending pre c seg -> seg :: word_segs (c :: rest) [] Boundary = cut_words pre c rest seg).
+Proof.
+  induction rest as [|next rest' IH]; intros c pre seg mode Hw;
+    inversion Hw as [|? ? Hc Hrest]; subst.
+  - (* c is the last char *)
+    split.
+    + intros (Hp0 & Hp1 & Hm & HnoL).
+      cbn [word_segs cut_words]. rewrite (alnum_not_underscore c Hc).
+      unfold word_starts_at. rewrite andb_false_r, orb_false_r.
+      replace (negb (is_nil pre) && is_uppercase c && is_mode_lower (last_cased pre)) with false; [reflexivity|].
+      symmetry. rewrite <- andb_assoc, (andb_comm (is_uppercase c)), HnoL. apply andb_false_r.
+    + intros (Hp & Hl & Hu & Hcur).
+      cbn [word_segs cut_words]. rewrite (alnum_not_underscore c Hc).
+      unfold word_starts_at. rewrite Hl, Hu. destruct pre; [congruence|]. reflexivity.
+  - inversion Hrest as [|? ? Hn Hrest']; subst.
+    assert (Hw' : alnum_word (next :: rest')) by exact Hrest.
+    split.
+    + intros (Hp0 & Hp1 & Hm & HnoL).
+      rewrite (word_segs_step c next rest' seg mode (alnum_not_underscore c Hc)).
+      rewrite (alnum_not_underscore next Hn). cbn [orb].
+      (* the running mode agrees with the absolute one where it matters *)
+      assert (Hnm : is_mode_lower (if is_lowercase c then Lowercase else if is_uppercase c then Uppercase else mode)
+                    = is_mode_lower (last_cased (pre ++ [c]))).
+      { rewrite last_cased_snoc. unfold upd_mode.
+        destruct (is_lowercase c) eqn:El; [reflexivity|]. destruct (is_uppercase c); [reflexivity|].
+        destruct Hm as [->|(_ & _ & Habs)]; [reflexivity|congruence]. }
+      rewrite Hnm.
+      destruct (is_mode_lower (last_cased (pre ++ [c])) && is_uppercase next) eqn:E1.
+      * (* boundary after c: the position-wise reading cuts at next *)
+        apply andb_true_iff in E1 as [E1a E1b].
+        rewrite cut_words_step.
+        assert (Hcut : word_starts_at pre c (next :: rest') = false).
+        { unfold word_starts_at.
+          assert (is_lowercase next = false) by (revert E1b; clear; charcase).
+          rewrite H, andb_false_r, orb_false_r.
+          rewrite <- andb_assoc, (andb_comm (is_uppercase c)), HnoL. apply andb_false_r. }
+        rewrite Hcut. cbn [app].
+        destruct (IH next (pre ++ [c]) (seg ++ [c]) Boundary Hw') as [_ IHp].
+        apply IHp. repeat split.
+        -- apply snoc_nonempty.
+        -- destruct (last_cased (pre ++ [c])); cbn in E1a; congruence.
+        -- exact E1b.
+        -- apply snoc_nonempty.
+      * destruct (is_mode_upper mode && is_uppercase c && is_lowercase next) eqn:E2.
+        -- (* boundary before c *)
+           apply andb_true_iff in E2 as [E2ab E2c]. apply andb_true_iff in E2ab as [E2a E2b].
+           assert (Hmode : mode = Uppercase) by (destruct mode; cbn in E2a; congruence).
+           assert (Hlc : last_cased pre = Uppercase).
+           { destruct Hm as [<-|(Hb & _)]; [exact Hmode|congruence]. }
+           assert (Hpre : pre <> []).
+           { intros ->. destruct (Hp0 eq_refl) as [_ Hb]. congruence. }
+           rewrite cut_words_step.
+           assert (Hcut : word_starts_at pre c (next :: rest') = true).
+           { unfold word_starts_at. rewrite Hlc, E2b, E2c. destruct pre; [congruence|reflexivity]. }
+           rewrite Hcut. cbn [app]. f_equal.
+           destruct (IH next (pre ++ [c]) [c] Boundary Hw') as [IHn _].
+           apply IHn. apply st_normal_intro.
+           ++ apply snoc_nonempty.
+           ++ discriminate.
+           ++ right. repeat split; [|exact E2c]. rewrite last_cased_snoc. unfold upd_mode.
+              rewrite E2b. destruct (is_lowercase c) eqn:El; [|reflexivity].
+              apply lower_not_upper_excl in El. congruence.
+           ++ rewrite last_cased_snoc. unfold upd_mode. rewrite E2b.
+              destruct (is_lowercase c) eqn:El; [|reflexivity].
+              apply lower_not_upper_excl in El. congruence.
+        -- (* no boundary *)
+           rewrite cut_words_step.
+           assert (Hcut : word_starts_at pre c (next :: rest') = false).
+           { unfold word_starts_at.
+             destruct pre as [|p0 pre0]; [reflexivity|]. cbn [is_nil negb andb].
+             destruct (is_uppercase c) eqn:Eu; [|reflexivity]. cbn [andb].
+             rewrite andb_comm in HnoL. cbn [andb] in HnoL. rewrite HnoL. cbn [orb].
+             destruct Hm as [Hm|(_ & _ & Hl)].
+             - rewrite <- Hm. rewrite <- Hm in *. rewrite andb_true_r in E2. exact E2.
+             - apply lower_not_upper_excl in Hl. congruence. }
+           rewrite Hcut. cbn [app].
+           destruct (IH next (pre ++ [c]) (seg ++ [c])
+                        (if is_lowercase c then Lowercase else if is_uppercase c then Uppercase else mode) Hw')
+             as [IHn _].
+           apply IHn. apply st_normal_intro.
+           ++ apply snoc_nonempty.
+           ++ apply snoc_nonempty.
+           ++ left. rewrite last_cased_snoc. unfold upd_mode.
+              destruct (is_lowercase c) eqn:El; [reflexivity|]. destruct (is_uppercase c); [reflexivity|].
+              destruct Hm as [->|(_ & _ & Habs)]; [reflexivity|congruence].
+           ++ exact E1.
+    + intros (Hp & Hl & Hu & Hcur).
+      rewrite (word_segs_step c next rest' [] Boundary (alnum_not_underscore c Hc)).
+      rewrite (alnum_not_underscore next Hn). cbn [orb is_mode_upper andb].
+      assert (Hlow : is_lowercase c = false).
+      { destruct (is_lowercase c) eqn:El; [|reflexivity]. apply lower_not_upper_excl in El. congruence. }
+      rewrite Hlow, Hu. cbn [is_mode_lower andb app].
+      rewrite cut_words_step.
+      assert (Hcut : word_starts_at pre c (next :: rest') = true).
+      { unfold word_starts_at. rewrite Hl, Hu. destruct pre; [congruence|reflexivity]. }
+      rewrite Hcut. cbn [app]. f_equal.
+      destruct (IH next (pre ++ [c]) [c] Uppercase Hw') as [IHn _].
+      apply IHn. apply st_normal_intro.
+      * apply snoc_nonempty.
+      * discriminate.
+      * left. rewrite last_cased_snoc. unfold upd_mode. now rewrite Hlow, Hu.
+      * rewrite last_cased_snoc. unfold upd_mode. now rewrite Hlow, Hu.
+Qed.
+
+Theorem word_segs_run_words w : alnum_word w -> word_segs w [] Boundary = run_words w.
+Proof.
+  intros Hw. destruct w as [|c rest]; [reflexivity|].
+  destruct (word_segs_cut_words_gen rest c [] [] Boundary Hw) as [H _].
+  apply H. unfold st_normal. repeat split; try tauto; try congruence.
+Qed.
+
+Theorem heck_words_position_wise s :
+  heck_words s = flat_map run_words (get_iterator s).
+Proof.
+  unfold heck_words. pose proof (get_iterator_pieces s) as H.
+  induction H as [|w ws Hw _ IH]; [reflexivity|].
+  cbn [flat_map]. now rewrite IH, word_segs_run_words.
 Qed.
